@@ -39,6 +39,30 @@ def run(ctx):
         ok = [c for c in cases if c.out[0] == "ok"]
         for c in ok[:2]:
             ctx.sample({"lines": c.lines, "value": cfgrun.describe(c.cfg)})
+    _prefixed_datatypes(ctx)
     return core.finish(ctx, obligations, discharged, names, RULE,
                        "lake build ZCV.Props.C02 && lake env lean ZCV/Audit/C02.lean",
                        ["float values compared as float(literal) == value", "schema object = expected elaboration (digest checked per schema)"])
+
+
+def _prefixed_datatypes(ctx):
+    """the value tree goes through the datatypes the schema NAMES: relative dotted names ('.server') are names under the nearest
+    enclosing prefix - a section type's own prefix for its own datatype, key type and keys; compared with the same schema written
+    with absolute names (the scenario of C11's prefix clause, observed here on the values)"""
+    import os
+    import shutil
+    import sys
+    import tempfile
+    from . import c11
+    root = tempfile.mkdtemp(prefix="zcv-c02p-", dir="/dev/shm" if os.path.isdir("/dev/shm") else None)
+    sys.path.insert(0, root)
+    stem = "zcvc02p%d" % os.getpid()
+    try:
+        c11.make_dt_packages(root, stem)
+        c11._prefixes(ctx, ctx.rng, stem)
+    finally:
+        sys.path.remove(root)
+        for m in list(sys.modules):
+            if m.startswith(stem):
+                del sys.modules[m]
+        shutil.rmtree(root, ignore_errors=True)
